@@ -247,18 +247,22 @@ def assemble(template_path, unit, default_props, skip_fns=None):
             # `//@callsites file=… impl=Parser callee=statement allowed=declaration,if_statement`: which functions of the impl
             # call `self.<callee>(` / `s.<callee>(`. Generated from the source on every run (a syntactic frame condition).
             kv = _parse_kv(s[13:])
-            src = get_source(kv['file'])
             callee = kv.get('callee') or kv['name']
             allowed = set(kv['allowed'].split(','))
             callers = set()
             call_pat = (kv['pattern'] if kv.get('pattern') else r'\b(?:self|s)\s*\.\s*%s\s*\(' % re.escape(callee))
-            for itf in src.find_all(lambda c: c.kind == 'fn'):
-                par = itf.parent
-                if par is None or par.kind != 'impl' or par.name != kv['impl']:
-                    continue
-                body = _code_only(src.text_of(itf))
-                if re.search(call_pat, body) and itf.name != callee:
-                    callers.add(itf.name)
+            # `file` may be a comma-separated list; `impl=*` means every function of those files (free functions too)
+            for frel in kv['file'].split(','):
+                src = get_source(frel)
+                for itf in src.find_all(lambda c: c.kind == 'fn'):
+                    par = itf.parent
+                    if kv['impl'] != '*' and (par is None or par.kind != 'impl' or par.name != kv['impl']):
+                        continue
+                    body = _code_only(src.text_of(itf))
+                    if re.search(call_pat, body) and itf.name != callee:
+                        qual_ = ('%s::%s' % (par.name, itf.name)) if (par is not None and par.kind == 'impl') else itf.name
+                        # an `allowed` entry with `::` names a function of a particular impl; a bare entry any function of that name
+                        callers.add(qual_ if (qual_ in allowed or itf.name not in allowed) else itf.name)
             unexpected = sorted(callers - allowed)
             out.append('// generated from %s: callers of %s::%s = {%s}; allowed = {%s}' % (kv['file'], kv['impl'], callee, ', '.join(sorted(callers)), ', '.join(sorted(allowed))))
             out.append('pub spec const UNEXPECTED_CALLERS_OF_%s: int = %d;%s' % (callee.upper(), len(unexpected), ('  // ' + ', '.join(unexpected)) if unexpected else ''))
